@@ -278,6 +278,18 @@ def finish(prop, tier, seed, total, meta, t0, legs):
     for leg in legs:
         for s in total.samples.get(leg, [])[:2]:
             samples.append({"leg": leg, "case": s})
+    if len(samples) < 4:
+        # schedule-exploration legs record their samples under the harness labels
+        extra = []
+        for leg in sorted(total.samples):
+            if leg in legs:
+                continue
+            for s in total.samples[leg]:
+                extra.append({"leg": leg, "case": s})
+        # prefer executions with many choice points and with deviations from the default schedule
+        extra.sort(key=lambda e: -(len(e["case"].get("schedule", ())) + 50 * sum(1 for c in e["case"].get("schedule", ()) if c))
+                   if isinstance(e["case"], dict) else 0)
+        samples.extend(extra[:5])
     classes = {leg: dict(sorted(d.items(), key=lambda kv: -kv[1])[:40]) for leg, d in total.classes.items()}
     coverage = {
         "evaluations": evaluations,
